@@ -22,7 +22,7 @@ use erg_common::config::{ErgConfig, ErgMode};
 use erg_common::error::{ErrorDisplay, Location};
 use erg_common::io::Input;
 use erg_common::python_util::PythonVersion;
-use erg_common::traits::{New, Stream};
+use erg_common::traits::New;
 use erg_compiler::build_package::PackageBuilder;
 use erg_compiler::error::CompileError;
 use serde_json::{json, Value};
